@@ -44,7 +44,7 @@ def base_traces(versions, for_c19=False):
                                                        ("VTp", u32(1, 0)), ("VTr", u32(1, 0)), ("VTe", u32(1, 0)),
                                                        ("OF[", b""), ("OF]", b""), ("OHe", b""), ("OF[", b""), ("OF]", b"")])},
         "loom.n0/proc.100/thread.102": {"meta": meta(102, 100, "n0", req=("nosv",)),
-                                        "events": evs([_x(1, 102), ("OAs", i32(1)), ("OHp", b""), ("OHr", b""),
+                                        "events": evs([_x(1, 102), ("OHC", i32(1) + i64(7)), ("OAs", i32(1)), ("OHp", b""), ("OHr", b""),
                                                        ("VSh", b""), ("VSf", b""), ("OHe", b""), ("OF[", b""), ("OF]", b"")], 101)},
     }
     # T2: Nanos6
